@@ -180,6 +180,11 @@ func normalizeProperties(parentKey connor.FilterKey, conditions []any) []any {
 	// can only merge _and groups if parent is not an _or operator
 	parentOp, isParentOp := parentKey.(*mapper.Operator)
 	canMergeAnd := !isParentOp || parentOp.Operation != request.FilterOpOr
+	if !canMergeAnd {
+		// the elements of an _or are alternatives: an element with several properties stays one
+		// conjunction and two elements on the same property are not turned into an _and
+		return conditions
+	}
 
 	// accumulate properties that can be merged into a single _and
 	// if canMergeAnd is true, all _and groups will be merged
